@@ -398,6 +398,41 @@ def gen_history(r, n_ops, cyclic, with_cond):
   return h
 
 
+def gen_deep_history(r, depth, sat):
+  """A long use-def chain: node i binds x_i := f(x_{i-1}); the deep end is explainable iff `sat`.  Queries at
+  different distances from the end, in both orders, inside one solver lifetime (depth-dependent memo entries,
+  recursion caps, path-cache reuse)."""
+  h = []
+  mir = Mirror()
+  def emit(op):
+    decompose(mir, op); h.append(("op", op))
+  emit(("NewNode", None))                       # node 0
+  emit(("NewVariable",))                        # var 0: the root source
+  if sat:
+    emit(("AddBindingAt", 0, 0, [], 0))         # b0 visible from everywhere below
+  else:
+    emit(("NewNode", None))                     # isolated node 1
+    emit(("AddBindingAt", 0, 0, [], 1))         # b0 only at the isolated node: never visible on the chain
+  prev_b = 0
+  last = 0
+  chain_nodes = []
+  chain_binds = []
+  for i in range(depth):
+    emit(("ConnectNew", last, None)); last = mir.n_nodes - 1
+    emit(("NewVariable",)); v = mir.n_vars - 1
+    emit(("AddBindingAt", v, 1, [prev_b], last)); prev_b = len(mir.bind) - 1
+    chain_nodes.append(last); chain_binds.append(prev_b)
+  picks = sorted(r.sample(range(len(chain_nodes)), min(4, len(chain_nodes))))
+  order = picks if r.random() < 0.5 else picks[::-1]
+  for k in order + order[::-1]:
+    h.append(("q", ("Vis", chain_nodes[k], [chain_binds[k]])))
+  # a mutation near the top, then the same queries again
+  emit(("AddBinding", 0, 2))
+  for k in order:
+    h.append(("q", ("Vis", chain_nodes[k], [chain_binds[k]])))
+  return h
+
+
 def replica_answer(ops, q):
   rp = Real()
   for op in ops:
@@ -590,6 +625,8 @@ def run(res):
   n_hist = 3000 if thorough else 700
   for i in range(n_hist):
     hs.append((f"h{i}", gen_history(r, r.randint(4, 26), cyclic=(i % 2 == 1), with_cond=(i % 4 >= 2))))
+  for i in range(24 if thorough else 8):
+    hs.append((f"deep{i}", gen_deep_history(r, r.choice([66, 70, 90, 130]) if i % 2 == 0 else r.randint(20, 150), sat=(i % 4 == 3))))
   t0 = time.time()
   cases = []
   expected = {}
